@@ -208,6 +208,7 @@ static void op_mark(void) {
   size_t st, en;
   if (!mark_range(d, o, T(3), T(4), &st, &en)) { skip(); return; }
   AMresult* vr = item_from(tval(T(7)));
+  if (!rok(vr)) { C(AMresultFree)(vr); obs_line("ERR"); return; } /* never pass a NULL item */
   AMresult* r = C(AMmarkCreate)(d, o, st, en, texpand(T(5)), tspan(T(6)), C(AMresultItem)(vr));
   C(AMresultFree)(vr);
   finish_status(r);
